@@ -270,7 +270,11 @@ func Pods(stream string, seed int64, n int, imports, caseTy, runFn string, inclu
 		add(nm)
 	}
 	for i := 0; i < n; i++ {
-		add(podgen.Random(r))
+		if i%2 == 0 {
+			add(podgen.Pairs(r)) // two settings of one control: where one can mask another
+		} else {
+			add(podgen.Random(r))
+		}
 	}
 	return set, in
 }
